@@ -407,7 +407,54 @@ class Ctx:
                              f"{why}: the check of {other} found a failing input ({(inner or {}).get('what', '')[:300]})",
                              {"dependency": other, "replay_of_dependency": inner})
 
+    TIMING_RE = re.compile(r"hang|stuck|time-?out|timed out|inconclusive|deadline|did not return", re.I)
+
+    def _confirm_timing_items(self):
+        """Verdicts that rest on a wall-clock bound (a step that 'hangs', a send that is 'stuck', an inconclusive
+        timeout) are not evidence on a machine that was stalled for a moment. Before such an item is reported the
+        whole check is run once more (same seed and tier, no dependencies); the item is kept only if that run also
+        reports a violation of the timing class. Everything else is reported as usual; a deterministic defect
+        reproduces and is kept."""
+        if os.environ.get("VERIF_CONFIRM") == "1":
+            return
+        known = load_known().get(self.prop, [])
+        is_t = lambda txt: bool(self.TIMING_RE.search(txt or ""))
+        tf = [f for f in self.findings if match_known(known, f["signature"]) is None
+              and is_t(f["signature"] + " " + f.get("what", ""))]
+        tb = [b for b in self.brokens if is_t(b.get("what", ""))]
+        if not tf and not tb:
+            return
+        env = dict(os.environ, VERIF_CONFIRM="1", VERIF_NO_DEPS="1", VERIF_SEED=str(self.seed),
+                   VERIF_EVIDENCE_SUFFIX=f".confirm-{self.prop}")
+        confirmed = False
+        try:
+            rc, out, err = sh([os.path.join(VERIF, "check"), self.prop, "--tier", self.tier], cwd=VERIF, env=env,
+                              timeout=3600)
+            for l in out.splitlines():
+                if not l.startswith("VIOLATION"):
+                    continue
+                rp = dict(x.split("=", 1) for x in l.split()[1:] if "=" in x).get("replay", "")
+                try:
+                    inner = json.load(open(rp))
+                except Exception:
+                    inner = {}
+                texts = [inner.get("signature", ""), inner.get("what", "")] + \
+                        [b.get("what", "") for b in inner.get("broken", [])]
+                if any(is_t(t) for t in texts):
+                    confirmed = True
+        except subprocess.TimeoutExpired:
+            confirmed = True
+        if confirmed:
+            return
+        self.findings = [f for f in self.findings if f not in tf]
+        self.brokens = [b for b in self.brokens if b not in tb]
+        self.notes.append(f"{len(tf)} finding(s) and {len(tb)} broken item(s) that rest on a wall-clock bound did not "
+                          f"reproduce when the check was run again and are not reported: "
+                          + "; ".join([f['signature'] for f in tf] + [b['what'][:80] for b in tb])[:600])
+        self.log(self.notes[-1])
+
     def finish(self, coverage, assumptions=(), trusted=()):
+        self._confirm_timing_items()
         known = load_known().get(self.prop, [])
         violations = 0
         printed_known = set()
@@ -448,6 +495,8 @@ class Ctx:
         cov["broken"] = [b["what"] for b in self.brokens]
         cov["known_findings_seen"] = sorted(printed_known)
         cov["translator_errors"] = getattr(self, "translator_errors", [])
+        if self.notes:
+            cov["notes"] = self.notes
         if getattr(self, "deps", None):
             cov["assumptions_discharged_by_sibling_checks"] = self.deps
         ev = {
